@@ -92,9 +92,9 @@ func c01Hub(x *Ctx) {
 		}
 		switch storedThenWithdrawn {
 		case "cancel", "cancel-during-dial":
-			a.hub.CancelPairingWithSKI(b.ski)
+			a.hub.CancelPairingWithSKI(r.spell(b.ski))
 		case "unregister", "unregister-during-dial":
-			a.hub.UnregisterRemoteSKI(b.ski)
+			a.hub.UnregisterRemoteSKI(r.spell(b.ski))
 		}
 		if duringDial {
 			withdrawnSeq = x.Ev("trust-withdrawn", storedThenWithdrawn, "", 0)
@@ -114,11 +114,11 @@ func c01Hub(x *Ctx) {
 			case "disconnect-C":
 				a.hub.DisconnectSKI(c.ski, "x")
 			case "cancel-B":
-				a.hub.CancelPairingWithSKI(b.ski)
+				a.hub.CancelPairingWithSKI(r.spell(b.ski))
 			case "disconnect-B":
-				a.hub.DisconnectSKI(b.ski, "x")
+				a.hub.DisconnectSKI(r.spell(b.ski), "x")
 			case "unregister-B":
-				a.hub.UnregisterRemoteSKI(b.ski)
+				a.hub.UnregisterRemoteSKI(r.spell(b.ski))
 			case "detail-B":
 				if storedThenWithdrawn == "cancel-during-dial" && completedBefore() {
 					// nothing was pending when the user cancelled: the completed pairing stays
